@@ -133,3 +133,33 @@ def reset_registry() -> None:
     from pyoak.node import NODE_REGISTRY
 
     NODE_REGISTRY.clear()
+
+
+def warm_up(k: int, base=None, derived=None) -> str:
+    """Order of first use is state (generated accessors, per-class caches).  Every shard starts by using ONE class of a
+    hierarchy in every way the library offers, chosen by the shard number: nothing / a bare ASTNode / the base / the
+    derived class.  Results must not depend on it."""
+    import dataclasses
+
+    from pyoak.node import NODE_REGISTRY
+    from pyoak.visitor import ASTTransformVisitor, ASTVisitor
+
+    kind = ["none", "bare-ASTNode", "base", "derived"][k % 4]
+    if kind == "none":
+        return kind
+    base = base or (lambda: ZO(c=ZL(1)))
+    derived = derived or (lambda: ZD(c=ZL(1), more=(ZL(2),)))
+    n = ASTNode() if kind == "bare-ASTNode" else (base() if kind == "base" else derived())
+
+    class _V(ASTVisitor[int]):
+        def generic_visit(self, node):
+            return 1 + sum(self.visit(c) for c in node.get_child_nodes())
+
+    list(n.dfs()), list(n.bfs()), list(n.gather(ASTNode)), n.children, list(n.get_properties()), list(n.iter_child_fields())
+    list(n.get_child_nodes()), list(n.get_child_nodes_with_field(sort_keys=True)), n.to_properties_dict(), type(n).get_child_fields()
+    n.duplicate(), dataclasses.replace(n), n.to_tree().get_depth(n), n == n, hash(n), n.is_equal(n)
+    _V().visit(n), type("_T", (ASTTransformVisitor,), {})().transform(n)
+    type(n).as_obj(n.as_dict()), type(n).from_json(n.to_json())
+    list(n.findall("//ZL")), n.replace(origin=O_A23)
+    NODE_REGISTRY.clear()
+    return kind
